@@ -17,7 +17,7 @@ pub fn pt(x: &str, y: &str) -> LefPoint {
     LefPoint { x: d(x), y: d(y) }
 }
 
-pub const NUM_ALTS: &[&str] = &["0.5", "-0.5", "0", "15", "-7.25", "0.005", "123456.789"];
+pub const NUM_ALTS: &[&str] = &["0.5", "-0.5", "0", "15", "-7.25", "0.005", "123456.789", "1.0000005"];
 pub const NAME_ALTS: &[&str] = &["A", "x[3]", "n<1>", "VDD!", "18T", "PIN", "_u1", "a.b/c", "-x"];
 
 pub const FOCI: &[&str] = &[
@@ -558,10 +558,18 @@ fn ports(g: &mut G) -> LefLibrary {
         width: None,
     };
     let mut port0 = LefPort { class: g.of(&[Some(PC::Core), Some(PC::None), Some(PC::Bump), None], "ports.class0"), layers: vec![l0, l1] };
-    match g.c.cost(3, "ports.nlayers") {
+    match g.c.cost(5, "ports.nlayers") {
         0 => {}
         1 => port0.layers.truncate(1),
-        _ => port0.layers.clear(),
+        2 => port0.layers.clear(),
+        // two consecutive LAYER statements of one port naming the same layer with the same options (listed
+        // first / listed last in the port)
+        k => {
+            let at = if k == 3 { 0 } else { 1 };
+            let mut twin = port0.layers[at].clone();
+            twin.geometries = vec![rect("4", "4", "5", "5")];
+            port0.layers.insert(at + 1, twin);
+        }
     }
     let port1 = LefPort {
         class: g.of(&[None, Some(PC::Bump)], "ports.class1"),
@@ -667,11 +675,21 @@ fn obs(g: &mut G) -> LefLibrary {
     let mut m = simple_macro("mac_a");
     m.pins = vec![simple_pin("p0", "met3", rect("1.1", "1.2", "1.3", "1.4"))];
     m.obs = vec![l0, l1];
-    match g.c.cost(3, "obs.count") {
+    match g.c.cost(5, "obs.count") {
         0 => {}
         1 => m.obs.truncate(1),
-        _ => {
+        2 => {
             m.obs.swap(0, 1);
+        }
+        // two / three consecutive LAYER statements naming the same layer with the same options
+        k => {
+            let mut twin = m.obs[0].clone();
+            twin.geometries = vec![rect("4", "4", "5", "5")];
+            twin.vias = vec![];
+            m.obs.insert(1, twin.clone());
+            if k == 4 {
+                m.obs.insert(2, twin);
+            }
         }
     }
     lib.macros = vec![m, simple_macro("m_after")];
@@ -710,7 +728,7 @@ fn density(g: &mut G) -> LefLibrary {
 
 fn property(g: &mut G) -> LefLibrary {
     let mut lib = lib_v(Some("5.8"));
-    let v0 = g.of(&["1.5", "\"str val\"", "word", "-3", "\"\""], "property.v0");
+    let v0 = g.of(&["1.5", "\"str val\"", "word", "-3", "\"\"", ".50", "-.25", "007", "1.50", "2.", "\" #x\""], "property.v0");
     let mut mp = vec![prop(&g.name("pa", "property.n0"), v0), prop("pb", "\"str ; val\""), prop("pc", "word")];
     let n = g.of(&[3usize, 1, 0], "property.count");
     mp.truncate(n);
